@@ -153,10 +153,12 @@ class UniverseLaws(base.BaseObject):
         if new is self._applies_to:
             return
 
-        self._applies_to = new
-
-        if self._applies_to is not None:
-            self._applies_to.laws = self
+        if new is None:
+            # detach: the universe we applied to no longer has these laws
+            self._applies_to.laws = None
+        else:
+            # the universe's setter takes care of both sides of the binding
+            new.laws = self
 
 
 class Universe(vertex.Vertex):
@@ -203,10 +205,10 @@ class Universe(vertex.Vertex):
         super().__init__(uid=uid, attributes=attributes)
 
         #: Laws of the universe
-        self._laws: UniverseLaws | None = laws
-        if self._laws is None:
-            self._laws = UniverseLaws(applies_to=self)
-        self._laws.applies_to = self
+        self._laws: UniverseLaws | None = None
+        # go through the setter, so both sides of the binding are updated (and
+        # laws that governed another universe until now are taken from it)
+        self.laws = laws if laws is not None else UniverseLaws()
 
         #: Internal set of vertices
         self._vertices: list[Vertex] = []
@@ -284,21 +286,24 @@ class Universe(vertex.Vertex):
         if new is self._laws:
             return
 
-        # deassignment
-        if self._laws is not None and new is None:
-            # pylint (rightfully) complains about the access to a private
-            # member here -- but, since we're still within the library, this is
-            # allowed.  it would, however, be an issue if a user of edgegraph
-            # were accessing this
-            # pylint: disable-next=protected-access
+        # pylint (rightfully) complains about the access to private members
+        # below -- but, since we're still within the library, this is allowed.
+        # it would, however, be an issue if a user of edgegraph were accessing
+        # them
+        # pylint: disable=protected-access
+
+        # detach whatever laws we had until now
+        if self._laws is not None:
             self._laws._applies_to = None
             self._laws = None
 
         # new- and re-assignment
-        else:
-            # mypy can't seem to figure out the type-narrowing here.  in this
-            # else clause, self._laws won't be none
-            self._laws.applies_to = None  # type: ignore
+        if new is not None:
+            # a set of laws governs one universe only: take it away from the
+            # universe that had it, if any
+            previous = new._applies_to
+            if previous is not None:
+                previous._laws = None
 
+            new._applies_to = self
             self._laws = new
-            self._laws.applies_to = self
